@@ -56,6 +56,11 @@ func (w *World) dateCriteria(label string) *baskettypes.DateCriteria {
 		if d.Year() < 1901 || d.Year() > 9000 {
 			d = time.Date(2020, 1, 1, 0, 0, 0, 0, time.UTC)
 		}
+		// a criterion inside a second: batches starting on the whole second are before it
+		if w.intn(label+"?subsec", 4) == 3 {
+			d = d.Add(pickOf(w, label+"subsec", []time.Duration{1, 500 * time.Millisecond, 999999999}))
+			w.Flags["sub-second-date-criterion"] = true
+		}
 		ts, err := gogotypes.TimestampProto(d)
 		if err != nil {
 			return nil
@@ -67,6 +72,10 @@ func (w *World) dateCriteria(label string) *baskettypes.DateCriteria {
 		if w.chance(label+"?exact", 60) {
 			d := pickOf(w, label+"target", datePool[4:11])
 			win = bt.Sub(d)
+			if w.intn(label+"?subsecwin", 4) == 3 {
+				win -= pickOf(w, label+"subsecwin", []time.Duration{1, 500 * time.Millisecond, 999999999}) // the boundary falls inside d's second
+				w.Flags["sub-second-date-criterion"] = true
+			}
 			if win < 24*time.Hour {
 				win = 24 * time.Hour
 			}
